@@ -1,7 +1,7 @@
 """C09 configuration (see lib/propcfg.py for the meaning of the keys)."""
 CFG = dict(
     models=[("model", "Arith"), ("model", "Guards")],
-    proofs=[("proofs", "Arith_proofs"), ("proofs", "Guards_proofs")],
+    proofs=[("proofs", "Arith_proofs"), ("proofs", "Guards_proofs"), ("proofs", "Guards_cancel_proofs")],
     extract="Extract_Guards", module="guards_model", driver="drv_C09.ml", ocaml_extra=["zhelpers.ml"],
     trusted_base=[
         "coq/model/Guards.v abstracts the evaluator to its dynamic call tree (one node per evalInternal entry, flag = entered through State.Eval or directly, kind = stops on / absorbs an error "
@@ -26,7 +26,7 @@ CFG = dict(
                "repeat / range / concat operands, growth loops, cancellation-instant sweeps and deeply nested source; exit status 0, wall <= deadline + 1.5 s and peak RSS <= 3 x limit + 96 MiB are "
                "checked, with a hard kill timeout and an address-space rlimit as backstop. The runtime part is NOT clean: six design-level findings are recorded (nesting of blocks is not counted "
                "by the depth guard -> Go stack overflow; quadratic formatted text for nested blocks / lambdas; front end outside deadline and budget; regsub quadratic and uninterruptible; "
-               "error construction walking the whole stack at the default depth).",
+               "error construction walking the whole stack at the default depth). ADDED (theorem growth): C09_run_terminates_any_cancellation - for EVERY cancellation instant (never, before the first entry, at any later entry), every depth limit and every finite call tree the run halts within fuel_for t steps, in the depth guard or with the outermost call returned, State.depth back to 0 and between 1 and size t evaluator entries made (the clause 'evaluation of any program returns ... all cancellation instants' was proved for uncancelled runs only); C09_cancelled_from_start - a context cancelled before the first entry costs exactly one entry and returns the context error whatever the program.",
     level_note="Trusted: Coq kernel, extraction (ExtrOcamlBasic), OCaml driver, Go harness, translator; axioms: none (Print Assumptions: closed). The theorems are about the abstract machine; "
                "that the evaluator IS such a machine (every loop re-enters evalInternal, every recursion goes through Eval) is argued from the source in notes/C09.md and checked by the "
                "correspondence and the child sweep only. Extension callbacks are Go code outside the machine.",
